@@ -92,25 +92,33 @@ QToInt(x) == x.n * 10^x.e
 QIsInteger(x) == ~IsBad(x) /\ (x.n = 0 \/ (x.e >= 0 /\ x.e <= 8 /\ (10^x.e) % x.d = 0))
 
 (***************************************************************************)
-(* 2. Units: exact-ratio units over the dimensions <<length, time, mass>>  *)
-(*    and one custom unit  $unit len = 2 m                                 *)
+(* 2. Units: exact-ratio units over the dimensions <<length, time, mass,   *)
+(*    angle>>, one custom unit  $unit len = 2 m , and the angle degree,    *)
+(*    whose magnitude is an entry of the library's unit table (treated as  *)
+(*    given, DESIGN 4.1): a value in deg is the TERM  number * tab:deg .   *)
 (***************************************************************************)
-UnitSyms == {"m", "cm", "km", "s", "ms", "g", "kg", "len"}
-NoDim == <<0, 0, 0>>
-UDim(u) == CASE u \in {"m", "cm", "km", "len"} -> <<1, 0, 0>>
-             [] u \in {"s", "ms"} -> <<0, 1, 0>>
-             [] u \in {"g", "kg"} -> <<0, 0, 1>>
+UnitSyms == {"m", "cm", "km", "s", "ms", "g", "kg", "len", "rad", "mrad", "deg"}
+NoDim == <<0, 0, 0, 0>>
+AngleDim == <<0, 0, 0, 1>>
+UDim(u) == CASE u \in {"m", "cm", "km", "len"} -> <<1, 0, 0, 0>>
+             [] u \in {"s", "ms"} -> <<0, 1, 0, 0>>
+             [] u \in {"g", "kg"} -> <<0, 0, 1, 0>>
+             [] u \in {"rad", "mrad", "deg"} -> AngleDim
              [] OTHER -> NoDim
+\* units whose magnitude is not an exact ratio: taken from the library's table by the harness
+TableUnits == {"deg"}
 \* magnitude of one unit in the coherent base <<m, s, g>>
 USc(u) == CASE u = "cm" -> Q(1, 1, -2) [] u = "km" -> Q(1, 1, 3) [] u = "ms" -> Q(1, 1, -3)
-            [] u = "kg" -> Q(1, 1, 3) [] u = "len" -> Q(2, 1, 0) [] OTHER -> QOne
+            [] u = "kg" -> Q(1, 1, 3) [] u = "len" -> Q(2, 1, 0) [] u = "mrad" -> Q(1, 1, -3)
+            [] u \in TableUnits -> BAD [] OTHER -> QOne
 UText(u) == IF u = "len" THEN "[len]" ELSE u
 CustomUnits == << [name |-> "len", n |-> 2, unit |-> "m"] >>
-DAdd(a, b) == <<a[1] + b[1], a[2] + b[2], a[3] + b[3]>>
-DSub(a, b) == <<a[1] - b[1], a[2] - b[2], a[3] - b[3]>>
-DScale(a, k) == <<a[1] * k, a[2] * k, a[3] * k>>
+DAdd(a, b) == <<a[1] + b[1], a[2] + b[2], a[3] + b[3], a[4] + b[4]>>
+DSub(a, b) == <<a[1] - b[1], a[2] - b[2], a[3] - b[3], a[4] - b[4]>>
+DScale(a, k) == <<a[1] * k, a[2] * k, a[3] * k, a[4] * k>>
 \* a requested unit: one symbol per dimension, raised to the exponents of dim
-ReqScale(us, dim) == QMul(QPowInt(USc(us[1]), dim[1]), QMul(QPowInt(USc(us[2]), dim[2]), QPowInt(USc(us[3]), dim[3])))
+ReqScale(us, dim) == QMul(QMul(QPowInt(USc(us[1]), dim[1]), QPowInt(USc(us[2]), dim[2])),
+                          QMul(QPowInt(USc(us[3]), dim[3]), QPowInt(USc(us[4]), dim[4])))
 
 (***************************************************************************)
 (* 3. Atoms.  One table for all three grammars; the harness renders an     *)
@@ -133,6 +141,13 @@ AT(tok) ==
     [] tok = "k"    -> A("inode", "k", 4, 1, 0, 0, "kg", FALSE, FALSE)
     [] tok = "b"    -> A("inode", "b", 2, 1, 0, 0, "m", FALSE, FALSE)
     [] tok = "j"    -> A("inode", "j", 2, 1, 0, 0, "", FALSE, FALSE)
+    [] tok = "w"    -> A("fnode", "w", 3, 1, 1, 0, "deg", FALSE, FALSE)
+    [] tok = "n"    -> A("inode", "n", 15, 1, 2, 0, "m", FALSE, FALSE)
+    [] tok = "l"    -> A("inode", "l", 1, 1, 0, 0, "km", FALSE, FALSE)
+    [] tok = "90deg"   -> A("lit", "", 9, 1, 1, 0, "deg", FALSE, FALSE)
+    [] tok = "45deg"   -> A("lit", "", 45, 1, 0, 0, "deg", FALSE, FALSE)
+    [] tok = "500mrad" -> A("lit", "", 5, 1, 2, 0, "mrad", FALSE, FALSE)
+    [] tok = "1.5km"   -> A("lit", "", 15, 1, -1, 0, "km", TRUE, FALSE)
     [] tok = "150cm"  -> A("lit", "", 15, 1, 1, 0, "cm", FALSE, FALSE)
     [] tok = "2"      -> A("lit", "", 2, 1, 0, 0, "", FALSE, FALSE)
     [] tok = "-5cm"   -> A("lit", "", -5, 1, 0, 0, "cm", FALSE, FALSE)
@@ -160,13 +175,14 @@ AT(tok) ==
     [] tok = "!z"     -> A("def", "zz", 0, 1, 0, 0, "", FALSE, FALSE)
 NumKinds == {"fnode", "inode", "lit"}
 BoolKinds == {"bnode", "blit", "def"}
-AllAtomToks == {"a", "c", "t", "f", "g", "h", "e", "k", "b", "j", "150cm", "2", "-5cm", ".002km", "1.5len",
+AllAtomToks == {"w", "n", "l", "90deg", "45deg", "500mrad", "1.5km",
+                "a", "c", "t", "f", "g", "h", "e", "k", "b", "j", "150cm", "2", "-5cm", ".002km", "1.5len",
                 "8m", "300cm", "3m", "3m+5", "3m-9", "3m+10", "3m+12", ".003km-20", "4m", "200cm", "250cm",
                 "2.0m", "3", "3s", "true", "false", "d", "q", "!a", "!z"}
 IsNumTok(t) == t \in AllAtomToks /\ AT(t).kind \in NumKinds
 IsBoolTok(t) == t \in AllAtomToks /\ AT(t).kind \in BoolKinds
 \* nodes that exist in the environment text (the harness writes the DIP text from this list)
-NodeToks == {"a", "c", "t", "f", "g", "h", "k", "b", "j", "d", "q"}
+NodeToks == {"a", "c", "t", "f", "g", "h", "k", "b", "j", "d", "q", "w", "n", "l"}
 CustomNodeToks == {"e"}
 \* base magnitude of an atom in its own unit, and in the coherent base
 AMag(a) == Q(a.n, a.d, a.e)
@@ -177,7 +193,10 @@ NumCfg(i) == CASE i = 1 -> [atoms |-> {"a", "150cm", "2"}, env |-> "plain"]
                [] i = 2 -> [atoms |-> {"a", "t", "-5cm"}, env |-> "plain"]
                [] i = 3 -> [atoms |-> {"c", ".002km", "k"}, env |-> "plain"]
                [] i = 4 -> [atoms |-> {"e", "1.5len", "a"}, env |-> "custom"]
-NNumCfg == 4
+               \* angles: operands of the trigonometric functions carry their unit too
+               [] i = 5 -> [atoms |-> {"f", "w", "90deg"}, env |-> "plain"]
+               [] i = 6 -> [atoms |-> {"w", "500mrad", "45deg"}, env |-> "plain"]
+NNumCfg == 6
 LogCfg(i) == CASE i = 1 -> [atoms |-> {"a", "300cm", "3m+5", "d", "!z"}, env |-> "plain"]
                [] i = 2 -> [atoms |-> {"a", "3m+12", ".003km-20", "q", "true"}, env |-> "plain"]
                [] i = 3 -> [atoms |-> {"b", "200cm", "250cm", "f", "d"}, env |-> "plain"]
@@ -186,7 +205,9 @@ LogCfg(i) == CASE i = 1 -> [atoms |-> {"a", "300cm", "3m+5", "d", "!z"}, env |->
                [] i = 6 -> [atoms |-> {"e", "8m", "1.5len", "a", "d"}, env |-> "custom"]
                [] i = 7 -> [atoms |-> {"a", "3", "3s", "3m-9", "3m+10"}, env |-> "plain"]
                [] i = 8 -> [atoms |-> {"3m", "300cm", "4m", "c", "true"}, env |-> "plain"]
-NLogCfg == 8
+               \* two int nodes in different units whose converted value is not integral (1500 m = 1.5 km)
+               [] i = 9 -> [atoms |-> {"n", "l", "b", "1.5km", "d"}, env |-> "plain"]
+NLogCfg == 9
 
 (***************************************************************************)
 (* 4. Numerical expressions - ideal                                        *)
@@ -262,21 +283,29 @@ VPow(x, y) ==
        ELSE VT(TOp("pow", 0, <<x.t, y.t>>), DScale(x.dim, k))
   ELSE IF x.dim = NoDim THEN VT(TOp("pow", 0, <<x.t, y.t>>), NoDim)
   ELSE VSt("unspec")
-\* exp, ln, log10, sin, cos of a dimensionless value (the harness picks which, per occurrence)
+\* A one-argument function of a dimensionless value (any function of Fn1Table) or of an ANGLE (the
+\* trigonometric ones: the operand carries its unit, so the function is taken of the angle in the
+\* coherent unit rad, which is what x.t denotes).  The harness picks the function per occurrence from
+\* the class FnClass names; other dimensions are outside what the documentation defines.
 VFn(idx, x) ==
   IF x.st # "ok" THEN x
-  ELSE IF x.dim # NoDim THEN VSt("unspec")
+  ELSE IF x.dim \notin {NoDim, AngleDim} THEN VSt("unspec")
   ELSE VT(TOp("f1", idx, <<x.t>>), NoDim)
+FnClass(x) == IF x.st = "ok" /\ x.dim = AngleDim THEN "trig" ELSE "any"
 \* the one-argument functions: `fn` names the mathematical function of the term language, `text` is
 \* how the occurrence is written.  The documentation calls the natural logarithm ln(, the solver
 \* (and its tests) log( - both spellings are in the quantifier.
-Fn1Table == << [fn |-> "exp", text |-> "exp(", tags |-> {}],
-               [fn |-> "ln", text |-> "log(", tags |-> {}],
-               [fn |-> "ln", text |-> "ln(", tags |-> {"fn_ln_as_documented"}],
-               [fn |-> "log10", text |-> "log10(", tags |-> {}],
-               [fn |-> "sin", text |-> "sin(", tags |-> {}],
-               [fn |-> "cos", text |-> "cos(", tags |-> {}] >>
-VAtom(tok) == LET a == AT(tok) IN VQ(ABase(a), UDim(a.u))
+Fn1Table == << [fn |-> "exp", text |-> "exp(", tags |-> {}, cls |-> "any"],
+               [fn |-> "ln", text |-> "log(", tags |-> {}, cls |-> "any"],
+               [fn |-> "ln", text |-> "ln(", tags |-> {"fn_ln_as_documented"}, cls |-> "any"],
+               [fn |-> "log10", text |-> "log10(", tags |-> {}, cls |-> "any"],
+               [fn |-> "sin", text |-> "sin(", tags |-> {}, cls |-> "trig"],
+               [fn |-> "cos", text |-> "cos(", tags |-> {}, cls |-> "trig"],
+               [fn |-> "tan", text |-> "tan(", tags |-> {}, cls |-> "trig"] >>
+TTab(u) == [op |-> "tab:" \o u, n |-> 0, d |-> 1, e |-> 0, a |-> <<>>]
+VAtom(tok) == LET a == AT(tok) IN
+              IF a.u \in TableUnits THEN VT(TOp("mul", 0, <<TQ(AMag(a)), TTab(a.u)>>), UDim(a.u))
+              ELSE VQ(ABase(a), UDim(a.u))
 
 \* evaluation of a Polish tree; fi = number of function occurrences met so far
 RECURSIVE NEv(_, _, _)
@@ -285,13 +314,17 @@ NEv(tr, p, fi) ==
   IF h \in {"+", "-", "*", "/", "**"} THEN
      LET x == NEv(tr, p + 1, fi)  y == NEv(tr, x.p, x.fi)
      IN [v |-> IF h \in {"+", "-"} THEN VAddSub(h, x.v, y.v)
-               ELSE IF h = "**" THEN VPow(x.v, y.v) ELSE VMulDiv(h, x.v, y.v), p |-> y.p, fi |-> y.fi]
-  ELSE IF h = "f1" THEN LET x == NEv(tr, p + 1, fi + 1) IN [v |-> VFn(fi + 1, x.v), p |-> x.p, fi |-> x.fi]
-  ELSE IF h = "neg" THEN LET x == NEv(tr, p + 1, fi) IN [v |-> VNeg(x.v), p |-> x.p, fi |-> x.fi]
-  ELSE IF IsNumTok(h) THEN [v |-> VAtom(h), p |-> p + 1, fi |-> fi]
-  ELSE [v |-> VSt("unspec"), p |-> p + 1, fi |-> fi]
+               ELSE IF h = "**" THEN VPow(x.v, y.v) ELSE VMulDiv(h, x.v, y.v), p |-> y.p, fi |-> y.fi,
+         fc |-> x.fc \cup y.fc]
+  ELSE IF h = "f1" THEN LET x == NEv(tr, p + 1, fi + 1) IN
+       [v |-> VFn(fi + 1, x.v), p |-> x.p, fi |-> x.fi, fc |-> x.fc \cup {<<fi + 1, FnClass(x.v)>>}]
+  ELSE IF h = "neg" THEN LET x == NEv(tr, p + 1, fi) IN [v |-> VNeg(x.v), p |-> x.p, fi |-> x.fi, fc |-> x.fc]
+  ELSE IF IsNumTok(h) THEN [v |-> VAtom(h), p |-> p + 1, fi |-> fi, fc |-> {}]
+  ELSE [v |-> VSt("unspec"), p |-> p + 1, fi |-> fi, fc |-> {}]
 NTreeOK(tr) == tr # <<>> /\ \A i \in 1..Len(tr) : IsNumTok(tr[i]) \/ tr[i] \in {"+", "-", "*", "/", "**", "f1", "neg"}
 NEval(tr) == IF NTreeOK(tr) THEN NEv(tr, 1, 0).v ELSE VSt("unspec")
+\* <<occurrence, class>> of every function occurrence of the tree
+NFnClasses(tr) == IF NTreeOK(tr) THEN NEv(tr, 1, 0).fc ELSE {}
 
 \* the value expressed in a requested unit
 VIn(v, us) ==
@@ -411,17 +444,19 @@ LClass(s) == LET r == LParse(s) IN
 (*    "R*" a reference {?name}, "S*" a slice, "F*" a format.  A reference  *)
 (*    segment is  { R [S] [F] } ; everything else is plain text, copied.   *)
 (***************************************************************************)
-TRefs == {"Ra", "Rs", "Rv", "Rb"}
-TSlices == {"S1", "S13"}
+TRefs == {"Ra", "Rs", "Rv", "Rb", "Rm"}
+TSlices == {"S1", "S13", "S01"}
 TFmts == {"F.2f", "F03d", "F.3g", "F>8s"}
-TRefName(t) == CASE t = "Ra" -> "a" [] t = "Rs" -> "s" [] t = "Rv" -> "v" [] t = "Rb" -> "b"
-TSliceOf(t) == CASE t = "S1" -> <<1, 1>> [] t = "S13" -> <<1, 3>> [] OTHER -> <<-1, -1>>   \* <<i,i>> index, <<i,j>> range
+TRefName(t) == CASE t = "Ra" -> "a" [] t = "Rs" -> "s" [] t = "Rv" -> "v" [] t = "Rb" -> "b" [] t = "Rm" -> "mm"
+\* one <<lo, hi>> per dimension: <<i, i>> is an index, <<i, j>> a range; <<>> = no slice
+TSliceOf(t) == CASE t = "S1" -> << <<1, 1>> >> [] t = "S13" -> << <<1, 3>> >> [] t = "S01" -> << <<0, 0>>, <<1, 1>> >>
+                 [] OTHER -> <<>>
 TFmtOf(t) == CASE t = "F.2f" -> ".2f" [] t = "F03d" -> "03d" [] t = "F.3g" -> ".3g" [] t = "F>8s" -> ">8s" [] OTHER -> ""
 TPlain(t) == CASE t = "T" -> "ab" [] t = "{" -> "{" [] t = "}" -> "}"
                [] t \in TRefs -> "{?" \o TRefName(t) \o "}"
-               [] t = "S1" -> "[1]" [] t = "S13" -> "[1:3]"
+               [] t = "S1" -> "[1]" [] t = "S13" -> "[1:3]" [] t = "S01" -> "[0,1]"
                [] t \in TFmts -> ":" \o TFmtOf(t)
-SegText(t) == [k |-> "text", s |-> TPlain(t), ref |-> "", sl |-> <<-1, -1>>, fmt |-> ""]
+SegText(t) == [k |-> "text", s |-> TPlain(t), ref |-> "", sl |-> <<>>, fmt |-> ""]
 SegRef(r, sl, f) == [k |-> "ref", s |-> "", ref |-> TRefName(r), sl |-> sl, fmt |-> f]
 \* length of the reference segment starting at s[i] (0 = none)
 TRefLen(s, i) ==
@@ -434,7 +469,7 @@ TSeg(s, i) ==
   IF i > Len(s) THEN <<>>
   ELSE LET n == TRefLen(s, i) IN
        IF n = 0 THEN <<SegText(s[i])>> \o TSeg(s, i + 1)
-       ELSE LET sl == IF s[i + 2] \in TSlices THEN TSliceOf(s[i + 2]) ELSE <<-1, -1>>
+       ELSE LET sl == IF s[i + 2] \in TSlices THEN TSliceOf(s[i + 2]) ELSE <<>>
                 fp == IF s[i + 2] \in TSlices THEN i + 3 ELSE i + 2
                 f == IF s[fp] \in TFmts THEN TFmtOf(s[fp]) ELSE ""
             IN <<SegRef(s[i + 1], sl, f)>> \o TSeg(s, i + n)
@@ -641,9 +676,9 @@ LFeatures(s) == LET r == LParse(s) IN IF r.ok THEN CmpFeatures(r.tree, 1).f ELSE
 \* formats the old regex :[0-9.]*[sdfeb]+ accepted; since 0920e69 the full format specification
 FmtSdfeb(t) == t \in {"F.2f", "F03d"}
 MFmtOK(t) == t \in TFmts /\ (FmtSdfeb(t) \/ "format_outside_sdfeb" \notin OpenDevs)
-TERR == << [k |-> "err", s |-> "", ref |-> "", sl |-> <<-1, -1>>, fmt |-> ""] >>
+TERR == << [k |-> "err", s |-> "", ref |-> "", sl |-> <<>>, fmt |-> ""] >>
 IsTErr(x) == x # <<>> /\ x[Len(x)].k = "err"
-TUNK == << [k |-> "unk", s |-> "", ref |-> "", sl |-> <<-1, -1>>, fmt |-> ""] >>
+TUNK == << [k |-> "unk", s |-> "", ref |-> "", sl |-> <<>>, fmt |-> ""] >>
 \* position after the slices / the format that follow the reference s[i+1]: part_reference consumes
 \* one slice itself and the solver's own part_slice a second one, which then wins
 MAfterSl(s, i) == LET j0 == i + 2
@@ -660,7 +695,7 @@ TMachFrom(s, i) ==
                                THEN TERR                             \* p.ccode[0] on an empty string: IndexError
                                ELSE <<SegText("{")>> \o TMachFrom(s, i + 1))   \* p.ccode[:1] since 0920e69
           ELSE IF s[j2] = "}" THEN
-               <<SegRef(s[i + 1], IF j1 > i + 2 THEN TSliceOf(s[j1 - 1]) ELSE <<-1, -1>>,
+               <<SegRef(s[i + 1], IF j1 > i + 2 THEN TSliceOf(s[j1 - 1]) ELSE <<>>,
                         IF j2 = j1 + 1 THEN TFmtOf(s[j1]) ELSE "")>> \o TMachFrom(s, j2 + 1)
           ELSE <<SegText("{")>> \o TMachFrom(s, i + 1)
   ELSE IF s[i] = "{" /\ i + 1 <= Len(s) /\ s[i + 1] = "{" THEN
